@@ -329,9 +329,13 @@ PLANS = {
     ),
     # not a listed property: growth of the specification beyond the list (DESIGN section 10); run with ./check extras
     "_extras": dict(
-        sany=["DltMisc.tla", "NvDecode.tla", "mc/MCDecode.tla", "mc/MCJunk.tla", "mc/MCSession.tla", "trace/TraceCodes.tla", "trace/TraceStats.tla", "trace/TraceDecode.tla", "trace/TraceReader.tla", "trace/TraceBuild.tla"],
+        sany=["DltMisc.tla", "NvDecode.tla", "mc/MCDecode.tla", "mc/MCJunk.tla", "mc/MCSession.tla", "trace/TraceCodes.tla", "trace/TraceStats.tla", "trace/TraceDecode.tla", "trace/TraceReader.tla", "trace/TraceBuild.tla",
+              "FilterJson.tla", "mc/MCFilterJson.tla", "trace/TraceFilterCfg.tla"],
         steps=[
             rec("codes", "misc", "TraceCodes", 300, 5000, 1, 2),
+            # the filter configuration as a JSON document (feature `serialization`): read_filter_options, the text serde writes, the conversion
+            rec("filtercfg", "json", "TraceFilterCfg", 1500, 30000, 1, 4),
+            mc("filterjson", "MCFilterJson", "MCFilterJson.cfg", "MCFilterJson.cfg", replay=("filtercfg", "filterjson")),
             rec("stats", "pipeline", "TraceStats", 600, 20000, 2, 8),
             rec("fibex", "decode", "TraceDecode", 200, 4000, 2, 8),
             rec("reader", "cont", "TraceReader", 400, 8000, 2, 8),
@@ -349,7 +353,10 @@ PLANS = {
                     "against tables in DltMisc; and the composed behaviour reader -> parse -> filter -> statistics: for well-formed streams read_message(filter) yields the marker "
                     "exactly for the dropped messages, kept + dropped = number of messages = ECU total of collect_statistics; and non-verbose decoding end to end "
                     "(NvDecode: load FIBEX files, parse a non-verbose message, extract_metadata by (context id, application id, message id) or by id alone, construct_arguments "
-                    "from the frame's signal types) = the composition of the loader machine, the reference decoder, Lookup and ConstructArgs.",
+                    "from the frame's signal types) = the composition of the loader machine, the reference decoder, Lookup and ConstructArgs; and the filter configuration as a "
+                    "document (FilterJson): read_filter_options on map / sequence forms with absent, null, ill-typed, out-of-range, unknown and repeated fields = Load, "
+                    "the text serde writes loads to the same configuration, and both conversions into the processed configuration = Processed (MCFilterJson: 106 369 states, "
+                    "90 720 documents replayed into the code).",
     ),
 }
 
@@ -357,16 +364,16 @@ PLANS = {
 ALSO = {
     "C01": " Populations also hold: messages around the one-byte / 15-bit limits of every length field (253..258, 300, 1000, 32766..32769 bytes), control payloads with service ids above 15, empty network-trace slices, trailing data up to k x 64 KiB.",
     "C02": " Also: Message::new(conf).as_bytes() = EncMessage(NewMessage(conf)) (operation layout); messages at the head of buffers of k x 64 KiB + {0, 1, len - 1} bytes.",
-    "C03": " Also: every 16-bit length field of an argument at its extremes (alone and in pairs passing 65535), message type x declared length combinations, the filter-configuration conversion under catch_unwind.",
+    "C03": " Also: every 16-bit length field of an argument at its extremes (alone and in pairs passing 65535), message type x declared length combinations, the filter-configuration conversion under catch_unwind; returned messages whose own serialisation is longer than their bytes (unterminated strings) at 65535 .. 65521 / 32768 / 32767 / 256 / 255 bytes.",
     "C04": " The frame may start at any occurrence of the pattern (which occurrence is C06's subject).",
     "C06": " Also an absolute relation: whatever a parse with storage header returns ends at the frame of the FIRST occurrence of the pattern; junk that is a run of one filler byte (16..95 bytes), junk that is itself a complete message without storage header, buffers of exactly k x 64 KiB + {0, 7, 15} bytes, the search with 65551..200000 bytes behind the pattern.",
     "C07": " Also: no read_message result is a panic; every hostile piece of the C03 family heads its own stream; messages within 20 bytes of a power of two.",
     "C08": " Also: streams of hostile pieces and of messages within 20 bytes of a power of two (2^8..2^15).",
-    "C10": " Also: id fields that are not valid UTF-8, ids differing in case or trailing blanks, 66 000 distinct ids, a fragmenting source.",
+    "C10": " Also: id fields that are not valid UTF-8, ids differing in case or trailing blanks, 66 000 distinct ids, a fragmenting source, messages repeated byte for byte (1..3 copies).",
     "C11": " Documents also vary: XML prolog (7 variants), BYTE-LENGTH values, self-closing empty elements, texts with entities / leading and trailing white space / blank-only text, ids >= 2^31, ids differing only in letter case, standard signal names re-declared as signals; consecutive loads go through the same slot paths.",
-    "C12": " Also: XML prolog variants, texts with entities, consecutive loads through the same slot paths, a 5.7 MB valid document under an 8 s bound.",
+    "C12": " Also: XML prolog variants, texts with entities, consecutive loads through the same slot paths, a 5.7 MB valid document under an 8 s bound; documents dense with 2- / 3- / 4-byte characters in which one text is emptied / removed / made non-numeric, at four alignments.",
     "C14": " The statistics scan is covered as one more entry point: the flags of the header handed to a visitor are those of the header-type byte. Also: every header-type byte under declared lengths around the announced headers (if a message is returned, its flags are those of the byte).",
-    "C16": " The chain also starts from messages laid out by hand (not by the crate's writer): string / raw arguments of 0..4000 bytes, float arguments by bit pattern (signalling / quiet NaNs, infinities, -0, subnormals).",
+    "C16": " The chain also starts from messages laid out by hand (not by the crate's writer): string / raw arguments of 0..4000 bytes, float arguments by bit pattern (signalling / quiet NaNs, infinities, -0, subnormals); hand-made text holds line ends, tabs, control and multi-byte characters, hand-made variable info has names / units with blanks, tabs and line breaks.",
     "C17": " Thorough tier: the identities on the naturals are also proved by TLAPS (spec/proofs/TimestampArith.tla).",
     "C19": " The ids a statistics visitor is handed obey the rule too. Also: a buffer ending inside an id field: incomplete with a hint no larger than the bytes missing in that field; id bytes incl. blank, tab, NBSP, invalid UTF-8.",
 }
